@@ -455,6 +455,13 @@ theorem ftrl_zero_of_le [Transc α] (hp : FtrlHp α) (z n : α) (h : |z| ≤ hp.
   · have : z * 1 ≤ hp.l1 := by rw [abs_of_nonneg (not_lt.mp hz)] at h; linarith
     simp only [hz, ↓reduceIte, this]
 
+/-- the same for the weight vector of any state (in particular the state after any history,
+`ftrlRun`): coordinate `j` of `get_weights` is exactly zero wherever `|z_j| ≤ l1` -/
+theorem ftrl_weights_zero_wherever_le [Transc α] (hp : FtrlHp α) (st : FState α) (j : Nat) (z n : α)
+    (hz : st.z[j]? = some z) (hn : st.n[j]? = some n) (h : |z| ≤ hp.l1) :
+    (ftrlWeights hp st)[j]? = some 0 := by
+  simp [ftrlWeights, List.getElem?_zipWith, hz, hn, ftrl_zero_of_le hp z n h]
+
 /-- and only there, as soon as the denominator `(√n + β)/α + l2` of the closed form is non-zero -/
 theorem ftrl_zero_iff [Transc α] (hp : FtrlHp α) (z n : α)
     (hden : (Transc.sqrt n + hp.beta) / hp.alpha + hp.l2 ≠ 0) :
@@ -490,6 +497,7 @@ example : (0 : Rat) ≤ 35 ∧ sigmoid (35 : Rat) 100 = sigmoid 35 35 ∧ sigmoi
 
 example : ftrlWeight (⟨1, 1, 1 / 2, 1⟩ : FtrlHp Rat) (-1 / 2) 4 = 0 := by decide +kernel
 example : ftrlWeight (⟨1, 1, 1 / 2, 1⟩ : FtrlHp Rat) (3 / 2) 4 ≠ 0 := by decide +kernel
+example : ftrlWeights (⟨1, 1, 1 / 2, 1⟩ : FtrlHp Rat) ⟨[-1 / 2, 3 / 2, 1 / 4], [4, 4, 0]⟩ = [0, -1 / 6, 0] := by decide +kernel
 
 end Field
 
